@@ -76,5 +76,21 @@ static inline void vf_mk_frame_in(struct Frame *f)
   f->_analogs = vf_mk_analogs();
 }
 
+/* an output stream positioned at 0 on an empty device of `cap` bytes */
+static inline vf_stream *vf_mk_ostream(size_t cap)
+{
+  vf_stream *f = (vf_stream *)vf_alloc(sizeof(*f));
+  f->buf = (unsigned char *)vf_alloc(cap ? cap : 1);
+  f->cap = cap;
+  f->len = 0;
+  f->pos = 0;
+  f->is_open = 1;
+  f->eof = 0;
+  f->fail = 0;
+  f->writable = 1;
+  f->work = 0;
+  return f;
+}
+
 #define VF_CANARY() __CPROVER_assert(0, "VACUITY_CANARY")
 #endif
